@@ -122,10 +122,10 @@ type Rng struct {
 
 // Agg is one aggregation.
 type Agg struct {
-	Kind   string `json:"kind"` // count sum min max terms ranges dranges
-	Field  string `json:"field,omitempty"`
-	Size   int    `json:"size,omitempty"`
-	Ranges []Rng  `json:"ranges,omitempty"`
+	Kind   string  `json:"kind"` // count sum min max terms ranges dranges
+	Field  string  `json:"field,omitempty"`
+	Size   int     `json:"size,omitempty"`
+	Ranges []Rng   `json:"ranges,omitempty"`
 	DCuts  []int64 `json:"dcuts,omitempty"` // dranges: boundaries, buckets (-inf,c0) [c0,c1) ... [cn,+inf)
 }
 
@@ -498,13 +498,18 @@ func addOp(batches [][]Op, at int, op Op) [][]Op {
 	return append(batches, []Op{op})
 }
 
-func genRecipe(t *rapid.T, label string, docs []Doc) Recipe {
+// genRecipe draws one recipe.  mode restricts it so that the score clause is decidable on the
+// pair: "strict" = no merged segment possible (policy none / offline single batch), no deleting
+// operation, scored, one index; "scored" = like strict but merging allowed; "merging" = scored
+// and certainly merge-capable; "free" = anything.
+func genRecipe(t *rapid.T, label string, docs []Doc, mode string) Recipe {
 	n := len(docs)
 	r := Recipe{}
 	uniq := map[int]bool{}
 	for _, i := range uniqueIdx(docs) {
 		uniq[i] = true
 	}
+	free := mode == "free"
 	switch k := rapid.IntRange(0, 9).Draw(t, label+"Kind"); {
 	case k <= 5:
 		r.Kind = "writer"
@@ -512,28 +517,41 @@ func genRecipe(t *rapid.T, label string, docs []Doc) Recipe {
 		r.Kind = "offline"
 	default:
 		r.Kind = "multi"
+		if !free {
+			r.Kind = "writer"
+		}
 	}
 	r.Conf = vlib.IdxConf{Dir: "fs", SegVer: 1, Merge: "none"}
-	if rapid.IntRange(0, 6).Draw(t, label+"SegV2") == 0 {
+	// version-2 segments cost about five times as much to build (one zstd encoder per segment)
+	if rapid.IntRange(0, 13).Draw(t, label+"SegV2") == 0 {
 		r.Conf.SegVer = 2
 	}
-	r.Conf.Merge = rapid.SampledFrom([]string{"none", "none", "none", "pairs", "pairs", "default", "nomem"}).Draw(t, label+"Merge")
+	switch mode {
+	case "strict":
+	case "merging":
+		r.Conf.Merge = rapid.SampledFrom([]string{"pairs", "pairs", "default", "nomem"}).Draw(t, label+"Merge")
+	default:
+		r.Conf.Merge = rapid.SampledFrom([]string{"none", "none", "pairs", "pairs", "default", "nomem"}).Draw(t, label+"Merge")
+	}
 	r.NoConj = rapid.Bool().Draw(t, label+"NoConj")
 	r.NoConjU = rapid.Bool().Draw(t, label+"NoConjU")
 	r.NoDisjU = rapid.Bool().Draw(t, label+"NoDisjU")
-	r.ScoreNone = rapid.IntRange(0, 2).Draw(t, label+"ScoreNone") == 0
+	if free {
+		r.ScoreNone = rapid.IntRange(0, 2).Draw(t, label+"ScoreNone") == 0
+	}
 	switch r.Kind {
 	case "writer":
 		if rapid.IntRange(0, 2).Draw(t, label+"Mem") == 0 {
 			r.Conf.Dir = "mem"
 		}
 		r.Conf.Unsafe = rapid.IntRange(0, 3).Draw(t, label+"Unsafe") == 0
-		r.Parts = [][][]Op{genBatches(t, label, idx(n), uniq, true)}
+		r.Parts = [][][]Op{genBatches(t, label, idx(n), uniq, free)}
 		opens := []string{"nrt", "reopen", "backup"}
 		if r.Conf.Dir == "mem" {
 			opens = []string{"nrt", "backup"}
 		}
 		r.Open = rapid.SampledFrom(opens).Draw(t, label+"Open")
+		r.fixNothingWritten()
 	case "offline":
 		order := idx(n)
 		if n > 1 {
@@ -545,7 +563,14 @@ func genRecipe(t *rapid.T, label string, docs []Doc) Recipe {
 		}
 		r.Parts = [][][]Op{{b}}
 		// 0 … n+1, with the ends (one document per segment; everything in one) preferred
-		r.OffBatch = rapid.SampledFrom([]int{0, 0, 1, 2, n / 2, n - 2, n - 1, n, n + 1}).Draw(t, label+"OffBatch")
+		sizes := []int{0, 0, 1, 2, n / 2, n - 2, n - 1, n, n + 1}
+		switch mode {
+		case "strict": // one flushed batch at most
+			sizes = []int{n - 1, n, n + 1}
+		case "merging":
+			sizes = []int{0, 0, 1, 2, n / 2, n - 2}
+		}
+		r.OffBatch = rapid.SampledFrom(sizes).Draw(t, label+"OffBatch")
 		if r.OffBatch < 0 {
 			r.OffBatch = 0
 		}
@@ -573,8 +598,23 @@ func genRecipe(t *rapid.T, label string, docs []Doc) Recipe {
 			opens = []string{"nrt"}
 		}
 		r.Open = rapid.SampledFrom(opens).Draw(t, label+"Open")
+		r.fixNothingWritten()
 	}
 	return r
+}
+
+// fixNothingWritten: a writer that never applied a batch has persisted nothing, so there is no
+// index to open read-only ("unable to find a usable snapshot"); that is not a build of the
+// empty corpus.  Such a part applies one empty batch, which does persist an empty snapshot.
+func (r *Recipe) fixNothingWritten() {
+	if r.Open != "reopen" {
+		return
+	}
+	for p := range r.Parts {
+		if len(r.Parts[p]) == 0 {
+			r.Parts[p] = [][]Op{{}}
+		}
+	}
 }
 
 // ---------------------------------------------------------------------------------------------
@@ -674,7 +714,7 @@ func genLeaf(t *rapid.T, v vocab) Q {
 		w := v.word(t, "wildWord")
 		return Q{Kind: "wildcard", Field: "t", Text: firstRunes(w, 1) + "*"}
 	case k == 16:
-		return Q{Kind: "fuzzy", Field: "t", Text: v.word(t, "fuzzyWord"), Fuzz: rapid.IntRange(1, 2).Draw(t, "fuzz")}
+		return Q{Kind: "fuzzy", Field: "t", Text: v.word(t, "fuzzyWord"), Fuzz: rapid.IntRange(0, 2).Draw(t, "fuzz")}
 	case k == 17:
 		a, b := v.kw(t, "trLo"), v.kw(t, "trHi")
 		if a > b {
@@ -824,8 +864,19 @@ func genCase(t *rapid.T, nq int) Case {
 	p := genParams(t)
 	docs, junk := genCorpus(t, p)
 	c := Case{Docs: docs, Junk: junk}
-	c.A = genRecipe(t, "a", docs)
-	c.B = genRecipe(t, "b", docs)
+	// the score clause is decidable only on some recipe pairs: make sure they are drawn
+	// (rapid favours the small values of a range: the unrestricted mode sits there)
+	switch k := rapid.IntRange(0, 19).Draw(t, "pairMode"); {
+	case k <= 9:
+		c.A = genRecipe(t, "a", docs, "free")
+		c.B = genRecipe(t, "b", docs, "free")
+	case k <= 13: // scored, no deletions, at least one build merges: explanation trees decide
+		c.A = genRecipe(t, "a", docs, "merging")
+		c.B = genRecipe(t, "b", docs, "scored")
+	default: // neither build can hold a merged segment or a deletion: scores must agree
+		c.A = genRecipe(t, "a", docs, "strict")
+		c.B = genRecipe(t, "b", docs, "strict")
+	}
 	c.Reqs = genReqs(t, corpusVocab(p, docs), len(docs), nq)
 	return c
 }
